@@ -39,7 +39,7 @@ PLAN = {
     "C16": dict(engine="vstore", level="fault_enumeration"),
     "C17": dict(engine="vstore", level="exploration"),
     "C18": dict(engine="vconc", level="exploration", race=True, extra=["vroute"]),
-    "C19": dict(engine="vroute", level="exploration", extra=["vsim"]),
+    "C19": dict(engine="vroute", level="exploration", extra=["vsim", "vconc"]),
     "C20": dict(engine="vproc", level="exploration", server=True, extra=["vroute", "vsim"]),
 }
 
